@@ -29,6 +29,7 @@ type State struct {
 	pc    []*Term
 	store map[string]Value
 	epoch *Epoch
+	after map[string]*State // the state right after the most recent contracted call of each function on this path (aftercall)
 }
 
 func newState() *State { return &State{store: map[string]Value{}, epoch: entryEpoch} }
@@ -37,6 +38,12 @@ func (s *State) Clone() *State {
 	n := &State{pc: s.pc[:len(s.pc):len(s.pc)], store: make(map[string]Value, len(s.store)), epoch: s.epoch}
 	for k, v := range s.store {
 		n.store[k] = v
+	}
+	if len(s.after) > 0 {
+		n.after = make(map[string]*State, len(s.after))
+		for k, v := range s.after {
+			n.after[k] = v
+		}
 	}
 	return n
 }
@@ -389,6 +396,14 @@ func (x *Exec) merge(a, b *State) *State {
 	ra := And(a.pc[k:]...)
 	rb := And(b.pc[k:]...)
 	out := &State{pc: a.pc[:k:k], store: map[string]Value{}, epoch: a.epoch}
+	for name, sa := range a.after {
+		if b.after[name] == sa {
+			if out.after == nil {
+				out.after = map[string]*State{}
+			}
+			out.after[name] = sa
+		}
+	}
 	out.assume(Or(ra, rb))
 	if a.epoch != b.epoch {
 		out.epoch = &Epoch{cond: ra, a: a.epoch, b: b.epoch}
